@@ -6,6 +6,7 @@ import (
 
 	"github.com/go-errors/errors"
 
+	"github.com/arr-ai/arrai/pkg/arraictx"
 	"github.com/arr-ai/arrai/rel"
 )
 
@@ -31,13 +32,13 @@ func stdEvalUnsafe() rel.Attr {
 }
 
 func evalExpr(ctx context.Context, v rel.Value) (rel.Value, error) {
-	return evalExprWithScope(ctx, v, rel.Scope{})
+	return evalExprWithScope(arraictx.ContextWithIsSandboxed(ctx, false), v, rel.Scope{})
 }
 
 // safeEvalExpr is //eval.value of the safe library: the source it evaluates sees the safe library only,
 // so that //eval.value cannot be used to leave a sandbox.
 func safeEvalExpr(ctx context.Context, v rel.Value) (rel.Value, error) {
-	return evalExprWithScope(ctx, v, SafeStdScope())
+	return evalExprWithScope(arraictx.ContextWithIsSandboxed(ctx, true), v, SafeStdScope())
 }
 
 func evalExprWithScope(ctx context.Context, v rel.Value, scope rel.Scope) (rel.Value, error) {
@@ -68,6 +69,8 @@ func contextualEval(ctx context.Context, config EvalConfig, v rel.Value) (rel.Va
 		name, value := e.Current()
 		scope = scope.With(name, value)
 	}
+	// the source may only use what the config provides: no files or URLs through import syntax
+	ctx = arraictx.ContextWithIsSandboxed(ctx, true)
 	switch val := v.(type) {
 	case rel.String, rel.Bytes:
 		evaluated, err := EvalWithScope(ctx, "", val.String(), scope)
